@@ -30,6 +30,11 @@ def jobs(tier):
         if "unpack" in e.tags and "assert" in e.tags:
             js.append(dict(name="%s/n4" % e.name, entry=e.name, backend="snarkjs", catalogue="checks.cat_c16",
                            cfg=dict(n=4, r=2, guard=None, bound=(1 << 20)), tier=tier, weight=1))
+    from . import cat_c14
+    for e in cat_c14.build(8, "quick"):
+        if "assert" in e.tags:
+            js.append(dict(name="%s/n8r2" % e.name, entry=e.name, backend="snarkjs", catalogue="checks.cat_c14",
+                           cfg=dict(n=8, r=2, guard=None, bound=(1 << 30)), tier=tier, weight=2))
     for e in CAT.build(4, "quick"):
         if e.name in ("assert_lt_ss", "assert_eq_ss", "assert_positive", "assert_range_cc", "assert_nonzero", "assert_ge_sc3"):
             for pre in (["false_region"], ["aborted_region"]):
